@@ -116,3 +116,32 @@ func simBeforeClose(ch chan osm.Object) {
 		Sim.BeforeClose(ch)
 	}
 }
+
+// SimTracer is an optional extension of SimRuntime for simulators that follow
+// the happens-before order of an extraction: the simulator's build step
+// inserts simRelease immediately before every Unlock/RUnlock of this package
+// and simAccess before statements that read or write a map-typed struct
+// field, so that two accesses no synchronisation orders can be recognised
+// even though the simulation runs one goroutine at a time.
+type SimTracer interface {
+	// Release announces that the lock p points to is about to be released.
+	Release(p interface{}, write bool)
+	// Access announces a read or write of the variable p points to.
+	Access(p interface{}, write bool, site string)
+}
+
+// SimFillInfo is set by code the simulator's build step generates: a note
+// about constructs of this package the inserted hooks do not cover.
+var SimFillInfo string
+
+func simRelease(p interface{}, write bool) {
+	if t, ok := Sim.(SimTracer); ok {
+		t.Release(p, write)
+	}
+}
+
+func simAccess(p interface{}, write bool, site string) {
+	if t, ok := Sim.(SimTracer); ok {
+		t.Access(p, write, site)
+	}
+}
